@@ -614,6 +614,32 @@ def run(ctx):
             ctx.violation(Finding('R-STAMPFMT', RP, 'arlpackedbit.__init__', api.stmt_of(c), "the stamp YYMMDDHHFF is parsed with '%s' from %s: the two characters after the hour are the forecast hour; read as part "
                                   'of the time they shift the reference date and the hour offsets of the records' % (fmt, 'its first %s characters' % cut if cut else 'the whole field')))
     ctx.floor('time stamp parses in the ARL reader', nst, 1)
+    # the within-row term differences the whole field: cutting columns off before np.diff drops the step between them and their neighbour
+    for st in comps:
+        for c in walk_expr(st.value):
+            if isinstance(c, ast.Call) and (dotted(c.func) or '').split('.')[-1] == 'diff' and c.args and kw(c, 'axis') is not None and norm(kw(c, 'axis')) in ('1', '-1'):
+                a0 = c.args[0]
+                if isinstance(a0, ast.Subscript):
+                    ctx.violation(Finding('R-ABSMAX', RP, 'pack2d', st, 'the within-row differences are taken over %s, not over the whole field: the step between the first columns never enters RMAX, the '
+                                          'exponent comes out too small and the packed differences wrap in a byte' % norm(a0)))
+                else:
+                    ctx.ok('R-ABSMAX', 'row term', wpk, 'np.diff over %s along axis 1' % norm(a0))
+    # ---- R-UNPACKPURE: the decoder returns the cumulative sums as they are (the first element is exact; nothing is flushed or clipped)
+    ctx.rule('R-UNPACKPURE', 'unpack: nothing is stored into the decoded array after the cumulative sums (no flush-to-zero, clipping or rounding of decoded values)')
+    cs_ = [i for i, st in enumerate(unp.body) if isinstance(st, ast.Assign) and any(isinstance(c, ast.Call) and (dotted(c.func) or '').endswith('cumsum') for c in walk_expr(st.value))]
+    if not cs_:
+        ctx.undec('R-UNPACKPURE', 'unpack', wu, 'no cumulative sum found')
+    else:
+        last = cs_[-1]
+        res_nm = norm(unp.body[last].targets[0])
+        later = [st for st in unp.body[last + 1:] if (isinstance(st, ast.Assign) and any(isinstance(t, ast.Subscript) and norm(t.value) == res_nm for t in st.targets)) or
+                 (isinstance(st, ast.AugAssign) and norm(st.target).startswith(res_nm)) or
+                 (isinstance(st, ast.Assign) and any(norm(t) == res_nm for t in st.targets))]
+        if later:
+            ctx.violation(Finding('R-UNPACKPURE', RP, 'unpack', later[0], 'the decoded values are changed after the cumulative sums (%s): small non-zero values - also a first element that was stored exactly - '
+                                  'no longer come back' % norm(later[0])[:50]))
+        else:
+            ctx.ok('R-UNPACKPURE', 'unpack', wu, 'returned as summed')
     # ---- R-PACKROUND: both sweeps of pack2d convert a scaled difference to the packed integer in the same way (truncation, as the decoder expects)
     ctx.rule('R-PACKROUND', 'pack2d: the first-column sweep and the row sweep use the same conversion INT((value - previous) * SCEXP + 127.5)')
     ic = [st for st in iter_stmts(pk.body) if isinstance(st, ast.Assign) and norm(st.targets[0]) == 'ICVAL']
@@ -752,7 +778,7 @@ def run(ctx):
         lv = loop[0].target.id
         res_name = [st.targets[0].id for st in gf.body if isinstance(st, ast.Assign) and isinstance(st.value, ast.List) and not st.value.elts]
         bad = unk = None
-        samples = [0, 0.5, 0.995, 1, 1.5, 9.5, 10, 10.5, 20, 99.9, 100, 101.325, 1000, 1013.25, 9999.5, 10000, 20000.5, 0.001, 0.01, 0.1, 99999]
+        samples = [0, 0.5, 0.995, 1, 1.5, 9.5, 10, 10.5, 20, 99.9, 100, 101.325, 1000, 1013.25, 9999.5, 10000, 20000.5, 0.001, 0.01, 0.1, 99999, 0.99925, 0.98125, 0.12345, 0.00007]
         for v in samples:
             env = consteval.run_block(loop[0].body, {lv: v, (res_name or ['vgtxts'])[0]: []}, want_env=True)
             if env is consteval.UNK:
